@@ -373,6 +373,7 @@ ExecStmt(s, st) ==
                        IF r.k = "ok" THEN R("ok", Nil, <<>>, SetTop(r.st, s.n, r.v), FALSE, FALSE)
                        ELSE IF Bad(r) THEN NoUnk(r) ELSE Unspec(r.st)
     [] s.t = "rawtag" -> Err(st)                                \* a tag with a syntax error (given as tokens)
+    [] s.t = "oktag" -> R("ok", Nil, <<>>, st, FALSE, FALSE)    \* a well-formed silent tag given as tokens: no output, no visible effect
     [] s.t = "ret"  -> LET r == EvalE(s.e, st) IN
                        IF r.k = "ok" THEN R("ret", r.v, <<>>, r.st, FALSE, FALSE)
                        ELSE IF Bad(r) THEN NoUnk(r) ELSE Unspec(r.st)
